@@ -851,3 +851,28 @@ Fixpoint numT (l : list ratom) : list (N * natt) :=
 Definition rdmol_ok (m : rmol) : bool :=
   wf_mol m && forallb (fun a => elem_ok (r_sym a)) (fst m) && forallb (fun b : N * N * Z => okord (snd b)) (snd m)
   && nodupb (map fst (numT (fst m))).
+
+(** ** NXToGML.transform(..., attributes=[...]): the attributes whose change moves a node from context to left/right
+    (default ["charge"]); value1 != value2 with None for a missing key *)
+Definition opt_eqb {A} (eqb : A -> A -> bool) (x y : option A) : bool :=
+  match x, y with Some a, Some b => eqb a b | None, None => true | _, _ => false end.
+Definition natt_diff (s : asel) (a b : natt) : bool :=
+  (k_el s && negb (opt_eqb str_eqb (a_el a) (a_el b))) || (k_ar s && negb (opt_eqb Bool.eqb (a_ar a) (a_ar b)))
+  || (k_hc s && negb (opt_eqb Z.eqb (a_hc a) (a_hc b))) || (k_ch s && negb (opt_eqb Z.eqb (a_ch a) (a_ch b)))
+  || (k_am s && negb (opt_eqb Z.eqb (a_am a) (a_am b))).
+Definition find_changed_sel (s : asel) (Lg Rg : gr) : list N :=
+  flat_map (fun p : N * natt => match label Rg (fst p) with
+                                | Some b => if natt_diff s (snd p) b then [fst p] else []
+                                | None => []
+                                end) (gnodes Lg).
+Definition nx_to_gml_sel (s : asel) (Lg Rg Kg : gr) (reindex explicit_h : bool) : grec :=
+  let K1 := if explicit_h then h_to_explicit Kg None false else Kg in
+  let m := enum_from 1%N (node_ids Lg) in
+  let '(L2, R2, K2) := if reindex then (nx_relabel m Lg, nx_relabel m Rg, nx_relabel m K1) else (Lg, Rg, K1) in
+  let ch := find_changed_sel s L2 R2 in
+  [(SLeft, side_entries L2 ch); (SContext, context_entries K2 ch explicit_h); (SRight, side_entries R2 ch)].
+Definition asel_charge : asel := AS false false false true false.
+(** a record up to entry order and edge orientation (where the atom order of the molecule is RDKit's affair) *)
+Definition t_ent_norm (e : gent) : tok :=
+  match e with GNode id l => L [I 0; tN id; t_str l] | GEdge s t l => L [I 1; tN (N.min s t); tN (N.max s t); t_str l] end.
+Definition t_rec_norm (r : grec) : tok := tlist (fun sc : gsec * list gent => L [t_sec (fst sc); tset t_ent_norm (snd sc)]) r.
